@@ -51,7 +51,8 @@ def execute(queue, secure):
                     else:                                   # follow-up of a redirect: /h<rid>_<hop>
                         rid = int(path[2:].split("_")[0])
                         hop[rid] += 1
-                        s = "redir-2b" if (queue[rid - 1] == "redir-2" and hop[rid] == 1) else "ok"
+                        s = "redir-2b" if (queue[rid - 1] == "redir-2" and hop[rid] == 1) else (
+                            "bad-location" if queue[rid - 1] == "redir-2bad" else "ok")
                     nxt = b"/h%d_%d" % (rid, hop[rid] + 1)
                     here = rq["to"][1]
                     scheme = b"https" if secure else b"http"
@@ -60,7 +61,10 @@ def execute(queue, secure):
                         outstanding -= 1
                     elif s == "delay":
                         delayed.append([3, OK])
-                    elif s in ("redir-rel", "redir-2b"):
+                    elif s == "bad-location":
+                        rig.answer(redirect(b"http://:99/nohost"))
+                        outstanding -= 1
+                    elif s in ("redir-rel", "redir-2b", "redir-2bad"):
                         rig.answer(redirect(nxt))
                         outstanding -= 1
                     elif s in ("redir-abs", "redir-2"):
@@ -125,7 +129,7 @@ def judge(rec, real, secure):
 
 
 def run(ctx):
-    scripts = {"ok", "delay", "redir-rel", "redir-abs", "redir-2", "redir-other", "redir-down", "close-before", "close-during"}
+    scripts = {"ok", "delay", "redir-rel", "redir-abs", "redir-2", "redir-2bad", "redir-other", "redir-down", "close-before", "close-during"}
     inv = ["OneAtATime", "FifoOneToOne", "WireInQueueOrder", "RedirectTransparent", "NoDowngrade", "EveryRequestAnswered"]
     for secure in (False, True):
         r = ctx.tlc("http", "ClientQueue", core.cfg_text(constants={"Scripts": scripts, "MaxQ": 3 if ctx.quick else 4, "Secure": secure},
